@@ -1,6 +1,11 @@
 import GrpcModel.Model.ServerDrain
-import GrpcProofs.Lemmas.ClientConn
-/-! Lemmas about `GrpcModel.ServerDrain` (server half of C14). -/
+/-!
+Lemmas about `GrpcModel.ServerDrain` (server half of C14).
+
+`core s` is the part of the state the drain properties talk about; `CStep` lists everything a single
+critical section can do to it; `core_step` shows that every event is a sequence of `CStep`s; the
+invariants are then proved on `Core` alone.
+-/
 namespace GrpcProofs.Lemmas.ServerDrain
 open GrpcModel.ServerDrain
 
@@ -9,316 +14,385 @@ macro "ssplits" : tactic => `(tactic| repeat' (first | split | (simp only []; sp
 
 def ids (s : State) : List Nat := s.streams.map (·.id)
 
-@[simp] theorem put_streams (s : State) (it : Item) : (s.put it).streams = s.streams := by unfold State.put; split <;> rfl
-@[simp] theorem put_tstate (s : State) (it : Item) : (s.put it).tstate = s.tstate := by unfold State.put; split <;> rfl
-@[simp] theorem put_max (s : State) (it : Item) : (s.put it).maxStreamID = s.maxStreamID := by unfold State.put; split <;> rfl
-@[simp] theorem put_final (s : State) (it : Item) : (s.put it).finalGoAway = s.finalGoAway := by unfold State.put; split <;> rfl
+structure Core where
+  max : Nat                 -- t.maxStreamID
+  ts : TState
+  fin : Option Nat          -- id chosen by the final GOAWAY of a graceful drain
+  dr : List Nat             -- HEADERS silently dropped
+  pend : Option Nat         -- reader inside operateHeaders (holds maxStreamMu)
+  err : Bool                -- an error GOAWAY was handled
+  ids : List Nat            -- streams handed to a handler
+deriving DecidableEq
 
-@[simp] theorem updStream_ids (s : State) (id : Nat) (f : SStrm → SStrm) (hf : ∀ x, (f x).id = x.id) :
-    ids (s.updStream id f) = ids s := by
-  simp only [ids, State.updStream, List.map_map]
-  apply List.map_congr_left
-  intro x _
-  simp only [Function.comp]
-  split <;> simp [hf]
+def core (s : State) : Core :=
+  { max := s.maxStreamID, ts := s.tstate, fin := s.finalGoAway, dr := s.dropped, pend := s.hdrPending,
+    err := s.errGoAway, ids := ids s }
 
-/-- what one event can do to the fields the drain properties talk about -/
-structure Eff (s s' : State) : Prop where
-  max : s.maxStreamID ≤ s'.maxStreamID
-  notReach : s.tstate ≠ .reachable → s'.tstate ≠ .reachable
-  idsEq : ids s' = ids s ∨ (s.tstate = .reachable ∧ s.maxStreamID < s'.maxStreamID ∧ ids s' = ids s ++ [s'.maxStreamID])
-  final : s'.finalGoAway = s.finalGoAway ∨ (s'.finalGoAway = some s.maxStreamID ∧ s'.maxStreamID = s.maxStreamID ∧ s'.tstate ≠ .reachable)
+/-- what one critical section can do to the core -/
+inductive CStep : Core → Core → Prop
+  | hdrA (c : Core) (p : Nat) : c.pend = none → c.max < p → CStep c { c with max := p, pend := some p }
+  | accept (c : Core) (p : Nat) : c.pend = some p → c.ts = .reachable → CStep c { c with pend := none, ids := c.ids ++ [p] }
+  | drop (c : Core) (p : Nat) : c.pend = some p → c.ts ≠ .reachable → CStep c { c with pend := none, dr := c.dr ++ [p] }
+  | finalG (c : Core) : c.pend = none → c.ts ≠ .closing →
+      CStep c { c with ts := .draining, fin := match c.fin with | some n => some n | none => some c.max }
+  | finalE (c : Core) : c.pend = none → c.ts ≠ .closing → CStep c { c with ts := .draining, err := true }
+  | closing (c : Core) : CStep c { c with ts := .closing }
 
-theorem Eff.refl (s : State) : Eff s s := ⟨Nat.le_refl _, id, Or.inl rfl, Or.inl rfl⟩
+inductive CSteps : Core → Core → Prop
+  | refl (c : Core) : CSteps c c
+  | tail {a b c : Core} : CSteps a b → CStep b c → CSteps a c
 
-/-- states that differ only in fields `Eff` does not look at -/
-theorem Eff.of_eq {s s' : State} (h1 : s'.streams = s.streams) (h2 : s'.tstate = s.tstate) (h3 : s'.maxStreamID = s.maxStreamID)
-    (h4 : s'.finalGoAway = s.finalGoAway) : Eff s s' :=
-  ⟨by rw [h3]; exact Nat.le_refl _, by rw [h2]; exact id, Or.inl (by simp [ids, h1]), Or.inl h4⟩
+theorem CSteps.one {a b : Core} (h : CStep a b) : CSteps a b := .tail (.refl a) h
 
-theorem Eff.trans_eq {s s1 s' : State} (h : Eff s s1) (h1 : s'.streams = s1.streams) (h2 : s'.tstate = s1.tstate)
-    (h3 : s'.maxStreamID = s1.maxStreamID) (h4 : s'.finalGoAway = s1.finalGoAway) : Eff s s' := by
-  obtain ⟨a, b, c, d⟩ := h
-  refine ⟨by rw [h3]; exact a, by rw [h2]; exact b, ?_, ?_⟩
-  · have : ids s' = ids s1 := by simp [ids, h1]
-    rw [this, h3]; exact c
-  · rw [h4, h3, h2]; exact d
+theorem CSteps.trans {a b c : Core} (h1 : CSteps a b) (h2 : CSteps b c) : CSteps a c := by
+  induction h2 with
+  | refl => exact h1
+  | tail _ st ih => exact .tail ih st
+
+theorem CSteps.of_eq {a b : Core} (h : b = a) : CSteps a b := by rw [h]; exact .refl a
+
+/-! ### functions that leave the core alone -/
+
+def KeepsC (f : State → State) : Prop := ∀ s, core (f s) = core s
+
+theorem core_put (s : State) (it : Item) : core (s.put it) = core s := by
+  unfold State.put; split <;> rfl
 
 theorem ids_map_id (l : List SStrm) (f : SStrm → SStrm) (hf : ∀ x, (f x).id = x.id) : (l.map f).map (·.id) = l.map (·.id) := by
   simp [List.map_map, Function.comp, hf]
 
-/-- leaf: the new state's four fields are read off by `simp` -/
-macro "eff_leaf" : tactic => `(tactic|
-  (first
-   | exact Eff.refl _
-   | (refine ⟨?_, ?_, ?_, ?_⟩
-      · simp
-      · simp
-      · left
-        simp only [ids]
-        first
-          | rfl
-          | (simp; done)
-          | (apply ids_map_id; intro x; (repeat' split) <;> rfl)
-          | (simp [State.updStream, State.finish]; apply List.map_congr_left; intro x _; (repeat' split) <;> simp)
-      · left; simp)))
+theorem core_updStream (s : State) (sid : Nat) (f : SStrm → SStrm) (hf : ∀ x, (f x).id = x.id) :
+    core (s.updStream sid f) = core s := by
+  simp only [core, State.updStream, ids]
+  congr 1
+  apply ids_map_id
+  intro x; split <;> simp [hf]
 
-theorem eff_put (s : State) (it : Item) : Eff s (s.put it) := Eff.of_eq (by simp) (by simp) (by simp) (by simp)
+theorem keepsC_loopyExit (c : Bool) : KeepsC (fun s => (s.loopyExit c).1) := by
+  intro s; unfold State.loopyExit; ssplits <;> rfl
 
-theorem eff_close (s : State) : Eff s s.close := by
-  unfold State.close
-  split
-  · exact Eff.refl _
-  · refine ⟨by simp [State.finish], by simp [State.finish], Or.inl ?_, Or.inl (by simp [State.finish])⟩
-    simp only [ids, State.finish]
-    apply ids_map_id
-    intro x; split <;> rfl
-
-theorem eff_readerExit (s : State) : Eff s s.readerExit := by
-  unfold State.readerExit
-  split
-  · exact Eff.refl _
-  · exact (eff_close s).trans_eq rfl rfl rfl rfl
-
-theorem eff_onHeaders (s : State) (sid : Nat) : Eff s (s.onHeaders sid) := by
-  unfold State.onHeaders
-  split
-  · exact Eff.refl _
-  · split
-    · exact eff_put ..
-    · rename_i hlegal
-      have hlt : s.maxStreamID < sid := by
-        simp at hlegal; omega
-      simp only []
-      split
-      · rename_i hnr
-        exact ⟨by simp; omega, by simp, Or.inl rfl, Or.inl rfl⟩
-      · rename_i hr
-        have hr' : s.tstate = .reachable := by simpa using hr
-        refine ⟨by simp; omega, by simp [hr'], Or.inr ⟨hr', by simp; exact hlt, by simp [ids]⟩, Or.inl (by simp)⟩
-
-theorem eff_drain (s : State) : Eff s s.drain := by
-  unfold State.drain; split
-  · exact Eff.refl _
-  · exact Eff.of_eq (by simp) (by simp) (by simp) (by simp)
-
-theorem eff_onPingAck (s : State) (d : Bytes) : Eff s (s.onPingAck d) := by
-  unfold State.onPingAck; ssplits <;> first | exact Eff.refl _ | exact Eff.of_eq rfl rfl rfl rfl
-
-theorem eff_onPing (s : State) (d : Bytes) : Eff s (s.onPing d) := by
-  unfold State.onPing; split
-  · exact Eff.refl _
-  · exact eff_put ..
-
-theorem eff_updStream (s : State) (sid : Nat) (f : SStrm → SStrm) (hf : ∀ x, (f x).id = x.id) : Eff s (s.updStream sid f) :=
-  ⟨Nat.le_refl _, fun h => h, Or.inl (updStream_ids s sid f hf), Or.inl rfl⟩
-
-
-/-- `f` leaves the four fields alone -/
-def Keeps (f : State → State) : Prop :=
-  ∀ s, (f s).streams = s.streams ∧ (f s).tstate = s.tstate ∧ (f s).maxStreamID = s.maxStreamID ∧ (f s).finalGoAway = s.finalGoAway
-
-theorem keeps_loopyExit (c : Bool) : Keeps (fun s => (s.loopyExit c).1) := by
-  intro s; unfold State.loopyExit; ssplits <;> simp [State.finish]
-
-theorem keeps_afterCleanup (sid : Nat) (r : Bool) (c : Nat) : Keeps (fun s => (s.afterCleanup sid r c).1) := by
+theorem keepsC_afterCleanup (sid : Nat) (r : Bool) (c : Nat) : KeepsC (fun s => (s.afterCleanup sid r c).1) := by
   intro s
   unfold State.afterCleanup
   simp only []
-  have k1 : ∀ (t : State) (b : Bool), (t.streams = s.streams ∧ t.tstate = s.tstate ∧ t.maxStreamID = s.maxStreamID ∧ t.finalGoAway = s.finalGoAway) →
-      ((t.loopyExit b).1.streams = s.streams ∧ (t.loopyExit b).1.tstate = s.tstate ∧ (t.loopyExit b).1.maxStreamID = s.maxStreamID ∧
-        (t.loopyExit b).1.finalGoAway = s.finalGoAway) := by
-    intro t b ht
-    have := keeps_loopyExit b t
-    simp only [] at this
-    exact ⟨this.1.trans ht.1, this.2.1.trans ht.2.1, this.2.2.1.trans ht.2.2.1, this.2.2.2.trans ht.2.2.2⟩
+  have k1 : ∀ (t : State) (b : Bool), core t = core s → core (t.loopyExit b).1 = core s := by
+    intro t b ht; exact (keepsC_loopyExit b t).trans ht
   ssplits
   all_goals first
-    | exact k1 _ _ ⟨rfl, rfl, rfl, rfl⟩
-    | exact ⟨rfl, rfl, rfl, rfl⟩
+    | exact k1 _ _ rfl
+    | rfl
 
-theorem keeps_afterFinalFlush (r : Bool) : Keeps (fun s => (s.afterFinalFlush r).1) := by
+theorem keepsC_afterFinalFlush (r : Bool) : KeepsC (fun s => (s.afterFinalFlush r).1) := by
   intro s; unfold State.afterFinalFlush; split
-  · exact keeps_loopyExit true s
-  · simp
+  · exact keepsC_loopyExit true s
+  · rfl
 
-theorem Eff.of_keeps {s : State} {f : State → State} (h : Keeps f) : Eff s (f s) :=
-  Eff.of_eq (h s).1 (h s).2.1 (h s).2.2.1 (h s).2.2.2
+/-- `f` applied to a state with the same core as `s` -/
+theorem core_via {s : State} {f : State → State} (hk : KeepsC f) (t : State) (h : core t = core s) : core (f t) = core s :=
+  (hk t).trans h
 
-theorem Eff.then_keeps {s s1 : State} (h0 : Eff s s1) {f : State → State} (h : Keeps f) : Eff s (f s1) :=
-  h0.trans_eq (h s1).1 (h s1).2.1 (h s1).2.2.1 (h s1).2.2.2
+/-! ### every event is a sequence of core steps -/
 
-theorem eff_upd_put (s : State) (sid : Nat) (f : SStrm → SStrm) (it : Item) (hf : ∀ x, (f x).id = x.id) :
-    Eff s ((s.updStream sid f).put it) :=
-  (eff_updStream s sid f hf).trans_eq (by simp) (by simp) (by simp) (by simp)
+theorem core_close (s : State) (h : s.tstate ≠ .closing) : core s.close = { core s with ts := .closing } := by
+  unfold State.close
+  simp only [h, if_false]
+  simp only [core, State.finish, ids]
+  congr 1
+  apply ids_map_id
+  intro x; split <;> rfl
 
-/-- `f` applied to a state that agrees with `s` on the four fields -/
-theorem Eff.via {s : State} {f : State → State} (hk : Keeps f) (t : State) (h1 : t.streams = s.streams) (h2 : t.tstate = s.tstate)
-    (h3 : t.maxStreamID = s.maxStreamID) (h4 : t.finalGoAway = s.finalGoAway) : Eff s (f t) :=
-  (Eff.of_eq (s := s) (s' := t) h1 h2 h3 h4).then_keeps hk
+theorem cs_close (s : State) : CSteps (core s) (core s.close) := by
+  by_cases h : s.tstate = .closing
+  · unfold State.close; simp only [h, if_true]; exact .refl _
+  · rw [core_close s h]; exact .one (.closing _)
 
-theorem eff_onRST (s : State) (sid : Nat) : Eff s (s.onRST sid) := by
+theorem cs_readerExit (s : State) : CSteps (core s) (core s.readerExit) := by
+  unfold State.readerExit
+  split
+  · exact .refl _
+  · exact cs_close s
+
+theorem cs_hdrA (s : State) (sid : Nat) : CSteps (core s) (core (s.hdrA sid)) := by
+  unfold State.hdrA
+  split
+  · exact .refl _
+  · rename_i h0
+    have hp : s.hdrPending = none := by
+      cases h : s.hdrPending <;> simp_all
+    split
+    · exact .of_eq (core_put ..)
+    · rename_i hlegal
+      have hlt : s.maxStreamID < sid := by simp at hlegal; omega
+      exact .one (CStep.hdrA (core s) sid hp hlt)
+
+theorem cs_hdrB (s : State) : CSteps (core s) (core s.hdrB) := by
+  unfold State.hdrB
+  split
+  · exact .refl _
+  · rename_i sid hp
+    simp only []
+    split
+    · rename_i hn
+      exact .one (CStep.drop (core s) sid hp hn)
+    · rename_i hr
+      have hr' : s.tstate = .reachable := by simpa using hr
+      have : core (({ ({ s with hdrPending := none } : State) with
+          streams := s.streams ++ [({ id := sid, active := true, done := false, cancelled := false } : SStrm)] } : State).put (.register sid))
+          = { core s with pend := none, ids := (core s).ids ++ [sid] } := by
+        rw [core_put]; simp [core, ids]
+      rw [this]
+      exact .one (CStep.accept (core s) sid hp hr')
+
+theorem cs_onHeaders (s : State) (sid : Nat) : CSteps (core s) (core (s.onHeaders sid)) :=
+  (cs_hdrA s sid).trans (cs_hdrB _)
+
+theorem core_drain (s : State) : core s.drain = core s := by
+  unfold State.drain; split
+  · rfl
+  · exact core_put ..
+
+theorem core_onPingAck (s : State) (d : Bytes) : core (s.onPingAck d) = core s := by
+  unfold State.onPingAck; ssplits <;> rfl
+
+theorem core_onPing (s : State) (d : Bytes) : core (s.onPing d) = core s := by
+  unfold State.onPing; split
+  · rfl
+  · exact core_put ..
+
+theorem core_onRST (s : State) (sid : Nat) : core (s.onRST sid) = core s := by
   unfold State.onRST
   ssplits
   all_goals first
-    | exact Eff.refl _
-    | exact eff_upd_put _ _ _ _ (fun _ => rfl)
+    | rfl
+    | exact core_put ..
+    | exact (core_put ..).trans (core_updStream _ _ _ (fun _ => rfl))
 
-theorem eff_finishStream (s : State) (sid : Nat) : Eff s (s.finishStream sid).1 := by
+theorem core_finishStream (s : State) (sid : Nat) : core (s.finishStream sid).1 = core s := by
   unfold State.finishStream
   ssplits
   all_goals first
-    | exact Eff.refl _
-    | exact eff_upd_put _ _ _ _ (fun _ => rfl)
+    | rfl
+    | exact (core_put ..).trans (core_updStream _ _ _ (fun _ => rfl))
 
-theorem eff_loopyFlush (s : State) : Eff s s.loopyFlush.1 := by
-  unfold State.loopyFlush; ssplits <;> first | exact Eff.refl _ | exact Eff.of_eq rfl rfl rfl rfl
+theorem core_loopyFlush (s : State) : core s.loopyFlush.1 = core s := by
+  unfold State.loopyFlush; ssplits <;> rfl
 
-theorem eff_release (s : State) : Eff s s.release.1 := by
+theorem core_release (s : State) : core s.release.1 = core s := by
   unfold State.release
   simp only []
   ssplits
   all_goals first
-    | exact Eff.of_eq rfl rfl rfl rfl
-    | exact Eff.via (keeps_loopyExit true) _ rfl rfl rfl rfl
-    | exact Eff.via (keeps_afterFinalFlush _) _ rfl rfl rfl rfl
+    | rfl
+    | exact core_via (keepsC_loopyExit true) _ rfl
+    | exact core_via (keepsC_afterFinalFlush _) _ rfl
 
-theorem eff_loopyAbort (s : State) : Eff s s.loopyAbort.1 := by
+theorem core_loopyAbort (s : State) : core s.loopyAbort.1 = core s := by
   unfold State.loopyAbort
   ssplits
   all_goals first
-    | exact Eff.refl _
-    | exact Eff.via (keeps_loopyExit false) _ rfl rfl rfl rfl
+    | rfl
+    | exact core_via (keepsC_loopyExit false) _ rfl
 
-theorem eff_waiterFire (s : State) : Eff s s.waiterFire := by
+theorem core_waiterFire (s : State) : core s.waiterFire = core s := by
   unfold State.waiterFire
   ssplits
   all_goals first
-    | exact Eff.refl _
-    | exact Eff.of_eq rfl rfl rfl rfl
-    | exact Eff.of_eq (by simp) (by simp) (by simp) (by simp)
+    | rfl
+    | exact core_put ..
 
-theorem eff_closeTimerFire (s : State) : Eff s s.closeTimerFire := by
-  unfold State.closeTimerFire; ssplits <;> first | exact Eff.refl _ | exact Eff.of_eq rfl rfl rfl rfl
+theorem core_closeTimerFire (s : State) : core s.closeTimerFire = core s := by
+  unfold State.closeTimerFire; ssplits <;> rfl
 
-/-- loopy exits right after the transport was put into `draining` -/
-theorem eff_toDraining (s T : State) (c : Bool) (h1 : T.streams = s.streams) (h2 : T.tstate = .draining)
-    (h3 : T.maxStreamID = s.maxStreamID) (h4 : T.finalGoAway = s.finalGoAway) : Eff s (T.loopyExit c).1 := by
-  have k := keeps_loopyExit c T
-  simp only [] at k
-  exact ⟨by rw [k.2.2.1, h3]; exact Nat.le_refl _, fun _ => by rw [k.2.1, h2]; simp, Or.inl (by simp [ids, k.1, h1]),
-    Or.inl (by rw [k.2.2.2, h4])⟩
+theorem core_finalChosen (s : State) (cc : Bool) :
+    core (s.finalChosen cc) = (if cc then { core s with ts := .draining, err := true }
+      else { core s with ts := .draining, fin := match (core s).fin with | some n => some n | none => some (core s).max }) := by
+  unfold State.finalChosen; split <;> rfl
 
-/-- the final GOAWAY(maxStreamID) has been written and flushed -/
-theorem eff_final (s T : State) (r : Bool) (h1 : T.streams = s.streams) (h2 : T.tstate = .draining)
-    (h3 : T.maxStreamID = s.maxStreamID) (h4 : T.finalGoAway = some s.maxStreamID) : Eff s (T.afterFinalFlush r).1 := by
-  have k := keeps_afterFinalFlush r T
-  simp only [] at k
-  exact ⟨by rw [k.2.2.1, h3]; exact Nat.le_refl _, fun _ => by rw [k.2.1, h2]; simp, Or.inl (by simp [ids, k.1, h1]),
-    Or.inr ⟨by rw [k.2.2.2, h4], by rw [k.2.2.1, h3], by rw [k.2.1, h2]; simp⟩⟩
-
-/-- the loopy step: the only place where the final GOAWAY is written -/
-theorem eff_loopyStep (s : State) : Eff s s.loopyStep.1 := by
+/-- the loopy step: the only place where the final GOAWAY id is chosen -/
+theorem cs_loopyStep (s : State) : CSteps (core s) (core s.loopyStep.1) := by
   unfold State.loopyStep
   split
-  · exact Eff.refl _
+  · exact .refl _
   · split
-    · exact Eff.refl _
+    · exact .refl _
     · rename_i it rest _
-      have e0 : Eff s ({ s with cbuf := rest } : State) := Eff.of_eq rfl rfl rfl rfl
-      simp only []
       cases it with
-      | register id => exact Eff.of_eq rfl rfl rfl rfl
+      | register id => simp only [Item.isGoAway, Bool.false_and, Bool.false_eq_true, if_false]; exact .of_eq rfl
       | trailers id rst =>
-        simp only []
+        simp only [Item.isGoAway, Bool.false_and, Bool.false_eq_true, if_false]
         ssplits
         all_goals first
-          | exact e0
-          | exact Eff.via (keeps_loopyExit _) _ rfl rfl rfl rfl
-          | exact Eff.via (keeps_afterCleanup _ _ _) _ rfl rfl rfl rfl
-          | (refine Eff.then_keeps (s := s) (s1 := (({ s with cbuf := rest } : State).write (.H id)).updStream id (fun x => { x with active := false })) ?_ (keeps_afterCleanup _ _ _)
-             refine ⟨Nat.le_refl _, fun h => h, Or.inl ?_, Or.inl rfl⟩
-             exact updStream_ids _ _ _ (fun _ => rfl))
-      | cleanup id rst code => exact Eff.via (keeps_afterCleanup _ _ _) _ rfl rfl rfl rfl
+          | exact .of_eq rfl
+          | exact .of_eq (core_via (keepsC_loopyExit _) _ rfl)
+          | exact .of_eq (core_via (keepsC_afterCleanup _ _ _) _ rfl)
+          | exact .of_eq (core_via (keepsC_afterCleanup _ _ _) _ (core_updStream _ _ _ (fun _ => rfl)))
+      | cleanup id rst code =>
+        simp only [Item.isGoAway, Bool.false_and, Bool.false_eq_true, if_false]
+        exact .of_eq (core_via (keepsC_afterCleanup _ _ _) _ rfl)
       | pingAck d =>
-        simp only []
+        simp only [Item.isGoAway, Bool.false_and, Bool.false_eq_true, if_false]
         ssplits
         all_goals first
-          | exact Eff.via (keeps_loopyExit _) _ rfl rfl rfl rfl
-          | exact Eff.of_eq rfl rfl rfl rfl
+          | exact .of_eq (core_via (keepsC_loopyExit _) _ rfl)
+          | exact .of_eq rfl
       | goAway headsUp code closeConn =>
-        simp only []
+        simp only [Item.isGoAway, Bool.true_and]
         split
-        · exact Eff.via (keeps_loopyExit _) _ rfl rfl rfl rfl
-        · split
-          · split
-            · exact Eff.via (keeps_loopyExit _) _ rfl rfl rfl rfl
-            · exact Eff.of_eq rfl rfl rfl rfl
-          · (try simp only [])
+        · exact .refl _
+        · rename_i hblk
+          have hp : s.hdrPending = none := by
+            cases h : s.hdrPending <;> simp_all
+          (try simp only [])
+          split
+          · exact .of_eq (core_via (keepsC_loopyExit _) _ rfl)
+          · rename_i hcl
+            have hcl' : (core s).ts ≠ .closing := hcl
             split
-            · exact eff_toDraining s _ _ rfl rfl rfl rfl
             · split
-              · exact ⟨Nat.le_refl _, fun _ => by simp [State.write], Or.inl rfl, Or.inr ⟨rfl, rfl, by simp [State.write]⟩⟩
-              · exact eff_final s _ _ rfl rfl rfl rfl
+              · exact .of_eq (core_via (keepsC_loopyExit _) _ rfl)
+              · exact .of_eq rfl
+            · -- the final GOAWAY handler
+              have hstep : CSteps (core s) (core (({ s with cbuf := rest } : State).finalChosen closeConn)) := by
+                rw [core_finalChosen]
+                have hc : core ({ s with cbuf := rest } : State) = core s := rfl
+                rw [hc]
+                split
+                · exact .one (CStep.finalE (core s) hp hcl')
+                · exact .one (CStep.finalG (core s) hp hcl')
+              generalize (({ s with cbuf := rest } : State).finalChosen closeConn) = T at hstep
+              (try simp only [])
+              ssplits
+              all_goals first
+                | exact hstep
+                | exact hstep.trans (.of_eq (core_via (keepsC_loopyExit _) _ rfl))
+                | exact hstep.trans (.of_eq (core_via (keepsC_afterFinalFlush _) _ rfl))
 
-theorem eff_step (s : State) (e : Ev) : Eff s (step s e).1 := by
+theorem core_step (s : State) (e : Ev) : CSteps (core s) (core (step s e).1) := by
   cases e <;> simp only [step]
-  · exact eff_onHeaders ..
-  · exact eff_drain ..
-  · exact eff_onPingAck ..
-  · exact eff_onPing ..
-  · exact eff_onRST ..
-  · exact eff_finishStream ..
-  · exact eff_loopyStep ..
-  · exact eff_loopyFlush ..
-  · exact eff_loopyAbort ..
-  · exact eff_waiterFire ..
-  · exact eff_closeTimerFire ..
-  · exact eff_readerExit ..
-  · exact eff_close ..
-  · exact Eff.of_eq rfl rfl rfl rfl
-  · exact eff_release ..
-  · exact Eff.of_eq rfl rfl rfl rfl
-  · exact Eff.of_eq rfl rfl rfl rfl
+  · exact cs_onHeaders ..
+  · exact cs_hdrA ..
+  · exact cs_hdrB ..
+  · exact .of_eq (core_drain ..)
+  · exact .of_eq (core_onPingAck ..)
+  · exact .of_eq (core_onPing ..)
+  · exact .of_eq (core_onRST ..)
+  · exact .of_eq (core_finishStream ..)
+  · exact cs_loopyStep ..
+  · exact .of_eq (core_loopyFlush ..)
+  · exact .of_eq (core_loopyAbort ..)
+  · exact .of_eq (core_waiterFire ..)
+  · exact .of_eq (core_closeTimerFire ..)
+  · exact cs_readerExit ..
+  · exact cs_close ..
+  · exact .of_eq rfl
+  · exact .of_eq (core_release ..)
+  · exact .of_eq rfl
+  · exact .of_eq rfl
 
-/-- the invariant of the drain: accepted ids never exceed `maxStreamID`; once the final GOAWAY(n) is out the
-transport is not `reachable` and every accepted id is ≤ n -/
-structure DInv (s : State) : Prop where
-  le : ∀ i ∈ ids s, i ≤ s.maxStreamID
-  fin : ∀ n, s.finalGoAway = some n → s.tstate ≠ .reachable ∧ ∀ i ∈ ids s, i ≤ n
-
-theorem dinv_init : DInv init := ⟨by simp [ids, init], by simp [init]⟩
-
-theorem dinv_step {s : State} (h : DInv s) (e : Ev) : DInv (step s e).1 := by
-  obtain ⟨a, b, c, d⟩ := eff_step s e
-  generalize (step s e).1 = s' at a b c d
-  constructor
-  · intro i hi
-    rcases c with c | ⟨_, hlt, c⟩
-    · rw [c] at hi; exact Nat.le_trans (h.le i hi) a
-    · rw [c] at hi
-      simp at hi
-      rcases hi with hi | hi
-      · exact Nat.le_trans (h.le i hi) a
-      · omega
-  · intro n hn
-    rcases d with d | ⟨d1, d2, d3⟩
-    · rw [d] at hn
-      have := h.fin n hn
-      refine ⟨b this.1, fun i hi => ?_⟩
-      rcases c with c | ⟨hr, _, _⟩
-      · rw [c] at hi; exact this.2 i hi
-      · exact absurd hr this.1
-    · rw [d1] at hn
-      have hn' : n = s.maxStreamID := (Option.some.inj hn).symm
-      refine ⟨d3, fun i hi => ?_⟩
-      rcases c with c | ⟨_, hlt, _⟩
-      · rw [c] at hi; rw [hn']; exact h.le i hi
-      · omega
-
-theorem dinv_run {s : State} (h : DInv s) (es : List Ev) : DInv (run s es) := by
+theorem core_run (s : State) (es : List Ev) : CSteps (core s) (core (run s es)) := by
   induction es generalizing s with
-  | nil => exact h
-  | cons e es ih => exact ih (dinv_step h e)
+  | nil => exact .refl _
+  | cons e es ih => exact (core_step s e).trans (ih _)
+
+/-! ### the invariant, on the core -/
+
+structure CInv (c : Core) : Prop where
+  /-- accepted ids never exceed `maxStreamID` -/
+  le : ∀ i ∈ c.ids, i ≤ c.max
+  /-- the final GOAWAY's id covers every accepted stream, and the transport is no longer `reachable` -/
+  fin : ∀ n, c.fin = some n → c.ts ≠ .reachable ∧ n ≤ c.max ∧ ∀ i ∈ c.ids, i ≤ n
+  /-- a HEADERS frame the reader is working on carries an id above the final GOAWAY's -/
+  pend : ∀ p, c.pend = some p → p = c.max ∧ ∀ n, c.fin = some n → n < p
+  /-- … and so does every stream that was dropped silently (unless an error GOAWAY tore the connection down) -/
+  drop : c.err = false → ∀ n, c.fin = some n → ∀ d ∈ c.dr, n < d
+  /-- nothing is dropped before the final GOAWAY id is chosen -/
+  early : c.err = false → c.fin = none → c.ts ≠ .closing → c.dr = []
+  /-- `draining` is entered only by a final-GOAWAY handler -/
+  drn : c.err = false → c.ts = .draining → c.fin.isSome = true
+
+theorem cinv_init : CInv (core init) := by
+  constructor <;> simp [core, init, ids]
+
+theorem cinv_cstep {a b : Core} (h : CInv a) (st : CStep a b) : CInv b := by
+  obtain ⟨h1, h2, h3, h4, h5, h6⟩ := h
+  cases st with
+  | hdrA p hp hlt =>
+    refine ⟨fun i hi => Nat.le_trans (h1 i hi) (Nat.le_of_lt hlt), fun n hn => ?_, fun q hq => ?_, h4, h5, h6⟩
+    · have := h2 n hn
+      exact ⟨this.1, Nat.le_trans this.2.1 (Nat.le_of_lt hlt), this.2.2⟩
+    · simp at hq; subst hq
+      exact ⟨rfl, fun n hn => Nat.lt_of_le_of_lt (h2 n hn).2.1 hlt⟩
+  | accept p hp hr =>
+    have hpm := (h3 p hp).1
+    refine ⟨fun i hi => ?_, fun n hn => ?_, fun q hq => by simp at hq, h4, h5, h6⟩
+    · simp at hi
+      rcases hi with hi | hi
+      · exact h1 i hi
+      · subst hi; simp [hpm]
+    · exact absurd hr (h2 n hn).1
+  | drop p hp hn =>
+    refine ⟨h1, h2, fun q hq => by simp at hq, fun he n hf d hd => ?_, fun he hf hc => ?_, h6⟩
+    · simp at hd
+      rcases hd with hd | hd
+      · exact h4 he n hf d hd
+      · subst hd; exact (h3 d hp).2 n hf
+    · -- fin = none, not closing, not reachable: draining without a final GOAWAY is impossible
+      exfalso
+      cases hts : a.ts with
+      | reachable => exact hn hts
+      | closing => exact hc hts
+      | draining =>
+        have := h6 he hts
+        rw [hf] at this
+        exact absurd this (by simp)
+  | finalG hp hc =>
+    refine ⟨h1, fun n hn => ?_, fun q hq => by rw [hp] at hq; simp at hq, fun he n hf d hd => ?_, fun he hf => ?_, fun _ _ => ?_⟩
+    · cases hf : a.fin with
+      | some m =>
+        simp [hf] at hn; subst hn
+        have := h2 m hf
+        exact ⟨by simp, this.2.1, this.2.2⟩
+      | none =>
+        simp [hf] at hn; subst hn
+        exact ⟨by simp, Nat.le_refl _, h1⟩
+    · cases hf0 : a.fin with
+      | some m =>
+        simp [hf0] at hf; subst hf
+        exact h4 he m hf0 d hd
+      | none =>
+        have := h5 he hf0 hc
+        simp [this] at hd
+    · cases hf0 : a.fin <;> simp [hf0] at hf
+    · cases hf0 : a.fin <;> simp
+  | finalE hp hc =>
+    refine ⟨h1, fun n hn => ?_, h3, fun he => by simp at he, fun he => by simp at he, fun he => by simp at he⟩
+    have := h2 n hn
+    exact ⟨by simp, this.2.1, this.2.2⟩
+  | closing =>
+    refine ⟨h1, fun n hn => ?_, h3, h4, fun _ _ hc => by simp at hc, fun _ hd => by simp at hd⟩
+    have := h2 n hn
+    exact ⟨by simp, this.2.1, this.2.2⟩
+
+theorem cinv_csteps {a b : Core} (h : CInv a) (st : CSteps a b) : CInv b := by
+  induction st with
+  | refl => exact h
+  | tail _ s1 ih => exact cinv_cstep ih s1
+
+/-- once the transport has left `reachable` no stream is handed to a handler any more -/
+theorem frozen_cstep {a b : Core} (hn : a.ts ≠ .reachable) (st : CStep a b) : b.ids = a.ids ∧ b.ts ≠ .reachable := by
+  cases st with
+  | hdrA => exact ⟨rfl, hn⟩
+  | accept p hp hr => exact absurd hr hn
+  | drop => exact ⟨rfl, hn⟩
+  | finalG => exact ⟨rfl, by simp⟩
+  | finalE => exact ⟨rfl, by simp⟩
+  | closing => exact ⟨rfl, by simp⟩
+
+theorem frozen_csteps {a b : Core} (hn : a.ts ≠ .reachable) (st : CSteps a b) : b.ids = a.ids ∧ b.ts ≠ .reachable := by
+  induction st with
+  | refl => exact ⟨rfl, hn⟩
+  | tail _ s1 ih =>
+    have := frozen_cstep ih.2 s1
+    exact ⟨this.1.trans ih.1, this.2⟩
 
 end GrpcProofs.Lemmas.ServerDrain
